@@ -675,15 +675,20 @@ def mediaPlaylist (st : State) (si : Nat) (delta : Bool) : Playlist :=
       hint := if isLL then some (.part si s.nextPartID) else none }
 
 /-- `hasPart(segmentID, partID)` including the roll-over `continue` over the REMAINING list; when the
-    roll-over runs past the last complete segment, the open segment (`nextID`, `openParts` parts) is tested. -/
-def hasPartScan (nextID openParts : Nat) : List Entry → Nat → Nat → Bool
-  | [], m, p => decide (m = nextID ∧ p < openParts)
-  | .gap _ :: rest, m, p => hasPartScan nextID openParts rest m p
-  | .seg g :: rest, m, p =>
+    roll-over runs past the last complete segment, the open segment (`nextID`, `openParts` parts) is tested.
+    `k` is the media sequence number of the list head (`muxerGap.id` of a gap entry: the initial gaps are
+    created with ids 0..6 and `deleteCount + len(segments) = nextSegmentID`); a gap entry named by the request
+    is a complete segment WITHOUT parts: the part index rolls over to part 0 of the following segment. -/
+def hasPartScan (nextID openParts : Nat) : Nat → List Entry → Nat → Nat → Bool
+  | _, [], m, p => decide (m = nextID ∧ p < openParts)
+  | k, .gap _ :: rest, m, p =>
+    if m = k then hasPartScan nextID openParts (k + 1) rest (m + 1) 0
+    else hasPartScan nextID openParts (k + 1) rest m p
+  | k, .seg g :: rest, m, p =>
     if m = g.id then
-      if p ≥ g.parts.length then hasPartScan nextID openParts rest (m + 1) 0
+      if p ≥ g.parts.length then hasPartScan nextID openParts (k + 1) rest (m + 1) 0
       else true
-    else hasPartScan nextID openParts rest m p
+    else hasPartScan nextID openParts (k + 1) rest m p
 
 def StreamSt.openPartCount (s : StreamSt) : Nat :=
   match s.nextSegment with
@@ -692,7 +697,7 @@ def StreamSt.openPartCount (s : StreamSt) : Nat :=
 
 def StreamSt.hasPart (s : StreamSt) (m p : Nat) : Bool :=
   if m = s.nextSegmentID then decide (p < s.openPartCount)
-  else hasPartScan s.nextSegmentID s.openPartCount s.segments m p
+  else hasPartScan s.nextSegmentID s.openPartCount (s.nextSegmentID - s.segments.length) s.segments m p
 
 inductive ReqDecision
   | bad400
